@@ -25,7 +25,10 @@ Inductive mop :=
 | MCancel (h : nat)
 | MReset (b : nat)
 | MPkg (b : nat) (p : Z)           (* b.Pkg(p) *)
-| MVarLookup (b : nat).            (* b.Var(..): a lookup that does not consult the package *)
+| MVarLookup (b : nat)             (* b.Var(..): a lookup that does not consult the package *)
+| MRejected (h : nat).             (* an instruction through handle h that goom refuses (ill-formed callback / values): it
+                                      panics before anything is installed or forgotten (defect F12d was Apply forgetting the
+                                      When of the mock that stays installed) *)
 
 Definition upd {A} (f : nat -> A) (k : nat) (v : A) : nat -> A := fun x => if Nat.eqb x k then v else f x.
 
@@ -106,6 +109,7 @@ Definition mstep (ntargets : nat) (s : mstate) (o : mop) : mstate :=
   | MReset b => m_reset ntargets s b
   | MPkg b p => {| installed := installed s; mks := mks s; mcache := mcache s; mhandles := mhandles s; mpkg := upd (mpkg s) b (Some p) |}
   | MVarLookup b => s
+  | MRejected _ => s
   end.
 
 Definition minit : mstate :=
